@@ -173,6 +173,8 @@ def plan_sweep(ctx):
             c["ir"], c["orr"] = 1.0, float(rng.choice([2, 4, 8, 16, 32, 64, 128, 256, 512, 48, 96, 100, 300]))
             if rng.chance(.3):
                 c["ir"] = float(rng.choice([3, 5, 7]))
+        if rng.chance(.15):
+            c["large"] = 8 + rng.below(5)            # small log2_large_dft_size: where dft_stage_init pads dft_length to 32 L
         if r < 7 and "phase" not in c:
             k = rng.below(4)
             if k == 0:
@@ -205,9 +207,9 @@ def plan_sweep(ctx):
         ctx.count("dft_stages_checked")
         ctx.hist("dist_plan_dft_L", s["L"] if s["L"] <= 8 else ">8" if not P.is_pow2(s["L"]) else "pow2>=16")
         rep = {"cfg": c, "stage": s, "model": a, "plan": info["stages"]}
-        if f.get("latency") != "1" or f.get("shape") != "1":
-            viol(ctx, "dft stage violates the latency / shape clauses of dft_stage_init (post_peak = L*preload + at, at < L, block_len, "
-                          "input_size): %s -> %s (%s)" % (op, a, P.label(c)), rep)
+        if f.get("latency") != "1" or f.get("shape") != "1" or f.get("pad") != "1":
+            viol(ctx, "dft stage violates the latency / shape / padding clauses of dft_stage_init (post_peak = L*preload + at, at < L, block_len, "
+                          "input_size, dft_length >= 32 L for power-of-two L): %s -> %s (%s)" % (op, a, P.label(c)), rep)
         elif lin and (f.get("centred") != "1" or f.get("fdok") != "1"):
             viol(ctx, "LINEAR-phase dft stage is not centred / not block-aligned (theorems linear_design_centred, "
                           "linear_block_aligned say it always is): %s -> %s (%s)" % (op, a, P.label(c)), rep)
@@ -498,7 +500,8 @@ def pinned_f1(ctx):
 
 
 def run(ctx):
-    broken = common.proof_stage(ctx, ["SoxrModel.Properties.C14", "SoxrModel.Phase.Main"], "C14", exes=(), gens=("Phase",))
+    has_exe = "soxr_phase" in open(os.path.join(common.LEAN, "lakefile.toml")).read()
+    broken = common.proof_stage(ctx, ["SoxrModel.Properties.C14", "SoxrModel.Phase.Main"], "C14", exes=("soxr_phase",) if has_exe else (), gens=("Phase",))
     P.harness()
     if getattr(ctx, "replay", None):
         rep = json.load(open(ctx.replay)).get("replay", {})
@@ -514,8 +517,8 @@ def run(ctx):
     falsifier(ctx, jobs)
     ctx.cov["rule"] = ("(1) generated (filter, phase n/d, peak) cases through the real lsx_fir_to_phase with index-valued markers behind its last FFT, "
                        "generated (L, M, Fn, phase, band edges, attenuation) through the real dft_stage_init: len / post_len / source index of "
-                       "every tap / num_taps as designed / post_peak / preload / at / block_len / input_size / FDomainOK equal to the Lean model; "
-                       "(2) every dft stage of a sweep of exported plans satisfies post_peak = L*preload + at, at < L, linear => centred, "
+                       "every tap / num_taps as designed / padded dft_length / post_peak / preload / at / block_len / input_size / FDomainOK equal to the Lean model; "
+                       "(2) every dft stage of a sweep of exported plans satisfies post_peak = L*preload + at, at < L, dft_length >= 32 L for power-of-two L, linear => centred, "
                        "at = 0 and L | block_len (Lean definitions evaluated by the driver); non-linear stages with L !| block_len are counted (F1), "
                        "none may have L < 8; (3) measurement: |H_p| vs |H_50| <= %.2f dB over the pass-band (0.35 dB for the medium roll-off recipes, whose plan depends on the phase), stop-band peak <= max(configured "
                        "precision + 1 dB, linear + 3 dB), equal output length, p vs 100-p mirror images about an axis within one input period "
@@ -526,7 +529,7 @@ def run(ctx):
                "minimum phase, measured); time-domain tolerances (16 eps of the engine's arithmetic (2^-22 float, 2^-50 double) + 2^(1-bits) of the configured precision) times the response peak times the number of stages",
                "the exported plan is read from the private structs of the library built from the working tree (harness includes soxr.c)",
                "the mirror axis may sit up to one input period off the input instant (the F-domain path ignores `at`; alignment is promised for linear phase only)",
-               "the Lean driver runs interpreted (`lean --run SoxrModel/Phase/Main.lean`) until lakefile.toml declares lean_exe soxr_phase")
+               "the Lean driver is the compiled lean_exe soxr_phase (rebuilt by the proof stage of every run); interpreted (`lean --run`) only if lakefile.toml does not declare it")
     ctx.assume(*cr.CR_ASSUME[:1])
     if broken and not ctx.violations:
         cr.report_broken(ctx, broken, "C14 falsifier on %d configurations found no failing input" % len(jobs))
